@@ -669,6 +669,64 @@ def f32bits(x):
     return 0x7fc00000 if x != x else struct.unpack("I", struct.pack("f", x))[0]
 
 
+def parse_log(se):
+    """the figures the program states on stderr: the statistics block and the quality block"""
+    d = {}
+    for key, pat in [("executed", r"Executed subproblems:\s+(\d+)"), ("nosol", r"\.\.\. no solution:\s+(\d+)"), ("infeasible", r"\.\.\. infeasible:\s+(\d+)"),
+                     ("feasible", r"\.\.\. feasible:\s+(\d+)"), ("newbest", r"\.\.\. new best:\s+(\d+)"), ("bound", r"Bound branches:\s+(\d+)"),
+                     ("score", r"Solution score:\s+(\d+)"), ("lack", r"Solution quality lack:\s+(\S+)"), ("overall", r"New overall assignment quality lack:\s+(\S+)")]:
+        m = re.findall(pat, se)
+        if len(m) == 1:
+            d[key] = m[0] if key in ("lack", "overall") else int(m[0])
+        elif len(m) > 1:
+            d[key] = "repeated"
+    m = re.findall(r"\(Perfect matching would have been:\s+(\S+)\)", se)
+    if len(m) == 2:
+        d["max"] = int(m[0]) if m[0].isdigit() else m[0]
+        d["maxlack"] = m[1]
+    return d
+
+
+def fmt_lack(v):
+    """a quality figure of the output file as the log prints it ({:.6} of the f32)"""
+    return None if v is None else "%.6f" % f32round(float(v))
+
+
+def stats_problems(lg, rc):
+    keys = ["executed", "nosol", "infeasible", "feasible", "newbest", "bound"]
+    if any(not isinstance(lg.get(k), int) for k in keys):
+        return [f"statistics block not found or incomplete: {lg}"]
+    pr = []
+    if lg["executed"] != lg["nosol"] + lg["infeasible"] + lg["feasible"]:
+        pr.append("executed != no solution + infeasible + feasible")
+    if lg["newbest"] > lg["feasible"]:
+        pr.append("more new best than feasible")
+    if lg["executed"] < 1:
+        pr.append("the root was not executed")
+    if rc == 0 and lg["newbest"] < 1:
+        pr.append("a solution is reported but no new best was counted")
+    if rc == 1 and (lg["feasible"] != 0 or lg["newbest"] != 0):
+        pr.append("no solution is reported but a feasible node was counted")
+    return [p_ + f" ({ {k: lg[k] for k in keys} })" for p_ in pr]
+
+
+def quality_log_problems(lg, q):
+    pr = []
+    if lg.get("score") != q.get("solution_score"):
+        pr.append(f"logged solution score {lg.get('score')} != {q.get('solution_score')} in the file")
+    if lg.get("max") != q.get("theoretical_max_score"):
+        pr.append(f"logged perfect-matching score {lg.get('max')} != {q.get('theoretical_max_score')} in the file")
+    for lk, qk in [("lack", "solution_quality"), ("maxlack", "theoretical_max_quality"), ("overall", "overall_quality")]:
+        want = fmt_lack(q.get(qk)) if qk in q else None
+        got = lg.get(lk)
+        if qk in q and q.get(qk) is None:
+            if got not in ("NaN", "inf", "-inf"):
+                pr.append(f"logged {lk} {got} for a non-finite {qk}")
+        elif want != got:
+            pr.append(f"logged {lk} {got} != {want} ({qk} of the file)")
+    return pr
+
+
 def lines_cdedb_read(cases, workdir, stream):
     res = run_reader(workdir, [(c["doc"], c["opts"]) for c in cases])
     out = []
@@ -1001,6 +1059,21 @@ def lines_e2e_cde(cases, workdir, stream, binary):
             if m:
                 payload = json.dumps({"doc": tag(c["doc"]), "opts": c["opts"], "imp": tag(strip_import(imp))}, ensure_ascii=False)
                 out.append(line("spec", ["C08"], "CQ", payload, "QUALITY", case=i, stream=stream, what=json.dumps({"solution": m.group(1), "overall": m.group(2)})))
+                # the figures stated on stderr are those of the summary
+                lg = parse_log(se)
+                pr = []
+                try:
+                    if lg.get("lack") != fmt_lack(float(m.group(1))) and not (m.group(1) in ("NaN", "inf") and lg.get("lack") == m.group(1)):
+                        pr.append(f"logged solution quality lack {lg.get('lack')} but the summary says {m.group(1)}")
+                    if "overall" in lg and lg["overall"] != fmt_lack(float(m.group(2))) and not (m.group(2) in ("NaN", "inf") and lg["overall"] == m.group(2)):
+                        pr.append(f"logged overall quality lack {lg['overall']} but the summary says {m.group(2)}")
+                    if c["opts"]["ia"] != ("overall" in lg):
+                        pr.append(f"overall quality logged: {'overall' in lg}, --ignore-assigned: {c['opts']['ia']}")
+                    if not isinstance(lg.get("score"), int) or not isinstance(lg.get("max"), int) or lg["score"] > lg["max"]:
+                        pr.append(f"logged score {lg.get('score')} / perfect matching {lg.get('max')}")
+                except ValueError as e:
+                    pr.append(f"summary figures not numbers: {e}")
+                out.append(line("direct", ["C08"], ok=not pr, what="; ".join(pr) or "logged quality figures equal those of the summary", case=i, stream=stream))
             if c["twin"] is not None and c["threads"] == 1:
                 json.dump(c["twin"], open(inp, "w", encoding="utf-8"), ensure_ascii=False)
                 os.remove(outp)
@@ -1230,6 +1303,10 @@ def lines_cli_simple(cases, workdir, stream, binary):
                     except Exception as e:
                         same = False; what += f"; output unreadable: {e}"
                 out.append(line("direct", ["C03", "C02", "C10"], ok=same, what=what, case=i, stream=stream, feat=["default-vs-one-worker"]))
+            if not to and rc in (0, 1):
+                # the statistics the program states add up and agree with its verdict
+                pr = stats_problems(parse_log(se), rc)
+                out.append(line("direct", ["C04"], ok=not pr, what="; ".join(pr) or "logged statistics add up and agree with the verdict", case=i, stream=stream))
             if rc == 1:
                 wrote = c["output"] and os.path.exists(outp) and not c["stale"]
                 out.append(line("direct", ["C10"], ok=not wrote, what="exit status 1 but an output file was written", case=i, stream=stream, nontrivial=False))
@@ -1257,6 +1334,8 @@ def lines_cli_simple(cases, workdir, stream, binary):
                     out.append(line("spec", ["C01", "C06", "C08"], "A", f"{it}#{fmt_assign(a)}", f"valid=true hard=true score={q.get('solution_score')} room=true", case=i, stream=stream))
                     out.append(line("spec", ["C08"], "Q", f"{it}#{fmt_assign(a)}", "QUALITY", case=i, stream=stream,
                                     what=json.dumps({"q": q})))
+                    pr = quality_log_problems(parse_log(se), q)
+                    out.append(line("direct", ["C08"], ok=not pr, what="; ".join(pr) or "logged score and quality figures equal the quality object of the file", case=i, stream=stream))
             if c["print"]:
                 lst = parse_listing(so)
                 if lst is None or len(lst) != nc:
